@@ -79,7 +79,10 @@ func genC03(seed uint64, tier string) *Plan {
 		switch {
 		case x < 22 || nbase == 0:
 			// a fresh validly built message: [forwarder, author 0..6, form 0..3, topic]
-			add("c03base", i, int64(r.intn(7)), int64(r.intn(4)), int64(r.intn(2)))
+			// (40%: built but not sent yet, so that a tampered variant reaches the node before the
+			// authentic copy - otherwise every variant that keeps author and sequence number is a
+			// duplicate by message ID and is dropped before its signature is looked at)
+			add("c03base", i, int64(r.intn(7)), int64(r.intn(4)), int64(r.intn(2)), int64(b2i(r.chance(0.4))))
 			nbase++
 		case x < 62:
 			// a tampered variant of an earlier message: [forwarder, base, tamper, parameter]
@@ -326,7 +329,11 @@ func runC03(s *sim) {
 		default: // anonymous
 		}
 		bases = append(bases, m)
-		send(fp, m, "authentic")
+		if it.a(4) == 0 {
+			send(fp, m, "authentic")
+		} else {
+			s.probe("c03_base_withheld")
+		}
 	}
 	w.extraOps["c03tamper"] = func(it Item) {
 		fp := w.fake(int(it.a(0)))
@@ -503,17 +510,25 @@ func runC03(s *sim) {
 	}
 	w.extraOps["c03pubkey"] = func(it Item) {
 		// publication with a per-publish key (valid pair, or - expected to fail - a nil key)
-		au := authors[int(it.a(1))%3*2] // ed25519, ed25519, secp256k1... any identity
+		au := authors[[]int{0, 3, 5}[int(it.a(1))%3]] // ed25519, secp256k1 (key embedded in the ID), RSA (key must travel)
 		topic := topicOf(it.a(0))
 		data := w.mkData(20)
 		own[string(data)] = true
-		s.do("Publish(WithSecretKeyAndPeerId) "+topic, func() any {
+		c := s.do("Publish(WithSecretKeyAndPeerId "+au.kind+") "+topic, func() any {
 			t, err := w.n.topic(topic)
 			if err != nil {
 				return err
 			}
 			return t.Publish(context.Background(), data, WithSecretKeyAndPeerId(au.priv, au.id))
 		})
+		// Under a signing policy a publication with a valid (key, peer ID) pair is built so that it
+		// verifies: the node's own validation applies the receiver's rule to it, a refusal means the
+		// message it built fails that rule.
+		if (eff == "strict" || eff == "laxsign") && len(s.parkedGates()) == 0 && c.isDone(s) && c.res != nil {
+			s.violate("C03", "own-verifies", "C03/own-publication-refused/"+au.kind, "policy %s, author mode %s: the node could not publish with a valid per-publish %s key: %v", policy, amode, au.kind, c.res)
+		} else if c.isDone(s) && c.res == nil {
+			s.probe("c03_per_publish_key_ok_" + au.kind)
+		}
 	}
 	w.localHook = func(topic string, data []byte, c *call) { own[string(data)] = true }
 
